@@ -112,7 +112,13 @@ func (f *SQLFormatter) formatSelect(stmt *ast.SelectStatement) error {
 
 	// SELECT keyword and columns
 	f.writeKeyword("SELECT")
-	if stmt.Distinct {
+	if len(stmt.DistinctOnColumns) > 0 {
+		f.builder.WriteString(" ")
+		f.writeKeyword("DISTINCT ON")
+		f.builder.WriteString(" (")
+		f.formatExpressionList(stmt.DistinctOnColumns, ", ")
+		f.builder.WriteString(")")
+	} else if stmt.Distinct {
 		f.builder.WriteString(" ")
 		f.writeKeyword("DISTINCT")
 	}
@@ -215,6 +221,54 @@ func (f *SQLFormatter) formatSelect(stmt *ast.SelectStatement) error {
 		f.builder.WriteString(fmt.Sprintf(" %d", *stmt.Offset))
 	}
 
+	// FETCH clause (SQL:2008 row limiting)
+	if stmt.Fetch != nil {
+		f.writeNewline()
+		if stmt.Fetch.OffsetValue != nil {
+			f.writeKeyword("OFFSET")
+			f.builder.WriteString(fmt.Sprintf(" %d ", *stmt.Fetch.OffsetValue))
+			f.writeKeyword("ROWS")
+			f.builder.WriteString(" ")
+		}
+		f.writeKeyword("FETCH")
+		f.builder.WriteString(" ")
+		f.writeKeyword(stmt.Fetch.FetchType)
+		if stmt.Fetch.FetchValue != nil {
+			f.builder.WriteString(fmt.Sprintf(" %d", *stmt.Fetch.FetchValue))
+		}
+		if stmt.Fetch.IsPercent {
+			f.builder.WriteString(" ")
+			f.writeKeyword("PERCENT")
+		}
+		f.builder.WriteString(" ")
+		if stmt.Fetch.WithTies {
+			f.writeKeyword("ROWS WITH TIES")
+		} else {
+			f.writeKeyword("ROWS ONLY")
+		}
+	}
+
+	// FOR UPDATE / FOR SHARE locking clause
+	if stmt.For != nil {
+		f.writeNewline()
+		f.writeKeyword("FOR")
+		f.builder.WriteString(" ")
+		f.writeKeyword(stmt.For.LockType)
+		if len(stmt.For.Tables) > 0 {
+			f.builder.WriteString(" ")
+			f.writeKeyword("OF")
+			f.builder.WriteString(" " + strings.Join(stmt.For.Tables, ", "))
+		}
+		if stmt.For.NoWait {
+			f.builder.WriteString(" ")
+			f.writeKeyword("NOWAIT")
+		}
+		if stmt.For.SkipLocked {
+			f.builder.WriteString(" ")
+			f.writeKeyword("SKIP LOCKED")
+		}
+	}
+
 	return nil
 }
 
@@ -269,17 +323,30 @@ func (f *SQLFormatter) formatInsert(stmt *ast.InsertStatement) error {
 	if stmt.Query != nil {
 		f.writeNewline()
 		if sel, ok := stmt.Query.(*ast.SelectStatement); ok {
-			return f.formatSelect(sel)
-		}
-		// For SetOperation or other statement types, use Format if available
-		if fmtable, ok := stmt.Query.(interface {
+			if err := f.formatSelect(sel); err != nil {
+				return err
+			}
+		} else if fmtable, ok := stmt.Query.(interface {
 			Format(ast.FormatOptions) string
 		}); ok {
+			// For SetOperation or other statement types, use Format if available
 			f.builder.WriteString(fmtable.Format(ast.FormatOptions{}))
 		}
 	}
 
+	f.formatReturning(stmt.Returning)
 	return nil
+}
+
+// formatReturning writes the RETURNING clause of INSERT, UPDATE and DELETE
+func (f *SQLFormatter) formatReturning(exprs []ast.Expression) {
+	if len(exprs) == 0 {
+		return
+	}
+	f.writeNewline()
+	f.writeKeyword("RETURNING")
+	f.builder.WriteString(" ")
+	f.formatExpressionList(exprs, ", ")
 }
 
 // formatUpdate formats UPDATE statements
@@ -316,6 +383,7 @@ func (f *SQLFormatter) formatUpdate(stmt *ast.UpdateStatement) error {
 		}
 	}
 
+	f.formatReturning(stmt.Returning)
 	return nil
 }
 
@@ -337,6 +405,7 @@ func (f *SQLFormatter) formatDelete(stmt *ast.DeleteStatement) error {
 		}
 	}
 
+	f.formatReturning(stmt.Returning)
 	return nil
 }
 
